@@ -41,6 +41,22 @@ CLAIMED = {
  'C05': dict(cat='proof', ref='4/C05',
    text='rans_sa: every helper (du,d2u,dnu,d2nu,chi,fv1,fv2,vt,s,r,g,fw,cw1,production,destruction,transport) proved against its SA definition / jet derivative and eval_q_u, eval_q_v proved modularly against the callee contracts; free-shear FANS-SA: mass source, nu field, exact fields and the two-argument == three-argument(t=0) obligations proved; three free-shear momentum/energy sources are KNOWN FINDINGS (frozen f_v1 derivative, missing rho c_v T_t). 15 functions (rans_sa dvt, free-shear eval_q_nu(x,y,t) and two wrappers, all wall-bounded evaluators) are only BOUNDED: un-weakened contracts compared with the extracted code on 2e4 (thorough 2e6) sampled admissible inputs in long double, never counted as proved.',
    note='real arithmetic instead of IEEE; libm as uninterpreted functions + axioms of lib/real.h; denominators assumed non-zero; extractor rule table; CBMC DFCC + SMT solver' + '; eval_q_u of rans_sa is proved relative to the bounded contract of dvt; bounded stand-ins are sampling, not proof (listed under coverage.bounded)', tech='CBMC code contracts (goto-instrument --dfcc --enforce-contract) on C extracted mechanically from the C++ source each run; __CPROVER_rational + SMT portfolio (cvc5/z3); native twin + real-class replay for counterexamples' + '; bounded stand-in = native twin sampling, labelled bounded'),
+
+ 'C11': dict(cat='proof', ref='4/C11',
+   text='Representation invariant of the store (names -> indices injective, slots valid and pairwise distinct) is assumed and re-established by the extracted register_var/set_var/get_var/purge_var/sanity_check/register_vec/set_vec/get_vec/display_* of masa_class.cpp, with postconditions that are the per-handle map semantics (set then get, frame on every other parameter, unknown name -> no effect / -20, purge -> all markers, sanity_check 0/1 characterisation, vectors copy length and contents): all histories by induction over the API. Per class (34 classes): constructor + init_var extracted and executed with the extracted store functions from arbitrary parameter values: every name registered once, init_var returns 0 and restores exactly the construction-time values.',
+   note='STL containers are contracts (trusted); Scalar* is an address in an abstract heap; capacities 256 names/512 scalars; exact real arithmetic in the store unit, IEEE double in the per-class harnesses; the power-law class (macro-registered ~210 parameters) and the two fixtures are not covered per class',
+   tech='CBMC code contracts + loop contracts (DFCC) on C extracted mechanically from masa_class.cpp / masa_core.cpp over the contract-bearing STL interface lib/vstore.h; quantified representation invariants decided by z3 5.1/4.8, one cbmc run per key obligation'),
+ 'C12': dict(cat='proof', ref='4/C12',
+   text='Registry invariant (every handle owns a live object, distinct handles distinct objects, no other live object) is preserved by the extracted init_mms / select_mms; init_mms: a catalogue class whose name equals masa_map(name) -> a fresh object of that class is mapped to exactly this handle and selected, every other handle untouched, a re-used handle gets a fresh object and the old one is released; no match -> fatal, nothing registered; select_mms: known handle selected, unknown fatal, nothing else changes; get_list_mms: one fresh object per entry; list_mms: prints only; ~MasterMS releases every owned object.',
+   note='std::map/std::vector contracts trusted; handles/names interned; new/delete as ms_new/ms_delete; masa_map uninterpreted here (C13); per-object parameter isolation = object distinctness + C11 frames; double/long double registries = two instances of the same template; init_mms needs ~6 min (z3)',
+   tech='CBMC code contracts + loop contracts (DFCC) on C extracted mechanically from masa_class.cpp / masa_core.cpp over the contract-bearing STL interface lib/vstore.h; quantified representation invariants decided by z3 5.1/4.8, one cbmc run per key obligation'),
+ 'C14': dict(cat='proof', ref='4/C14',
+   text='For 34 catalogue classes: construction registers every name once, sanity_check()==0 and init_var()==0 right after construction, init_var restores all values, the dimension literal equals the documented dimension and the evaluator arities fit it, each mmsname literal is its own masa_map normal form (the extracted masa_map is executed on it) and names are unique; get_list_mms allocates exactly one object per entry. NOT covered: that every documented evaluator returns a finite non-sentinel value at the defaults (floating-point evaluation) and is actually overridden (C++ overload resolution).',
+   note='IEEE double, reference container bodies, extracted store functions executed; power-law class and fixtures excluded per class; identical text for both scalar types by template instantiation',
+   tech='CBMC on mechanically extracted constructor/init_var/store/masa_map code with constant keys (complete symbolic execution, SAT back end) + DFCC contract of get_list_mms'),
+ 'C20': dict(cat='proof', ref='4/C20',
+   text='41 relational obligations over pairs of extracted classes in one unit: with like-named parameters equal and the specialising amplitudes zero (z-amplitudes and w field; mu=k=0; temporal amplitudes; A_t=B_t=C_t=D_t=0; k_1=k_2=cp_1=cp_2=0) the source evaluators of the larger model equal those of the smaller one at every point; frequencies of vanished terms stay free.',
+   note='real arithmetic instead of IEEE; libm as uninterpreted functions + axioms of lib/real.h; denominators assumed non-zero; extractor rule table; CBMC DFCC + SMT solver' + '; cos 0 = 1, sin 0 = 0 axioms', tech='relational assertions between two mechanically extracted C++ classes in one CBMC unit, __CPROVER_rational + SMT portfolio'),
 }
 
 NOT_YET = 'contract check not built yet in this session (see DESIGN.md section 4 for the plan)'
